@@ -1,6 +1,9 @@
 """C05 - Every response obeys the server-gateway protocol."""
 from __future__ import annotations
 
+import asyncio
+import os
+import re
 import threading
 
 from hypothesis import strategies as st
@@ -15,16 +18,34 @@ RULES = {
     "cookies; str/bytes/JSON content; iterables with empty chunks; files with non-ASCII paths and download names; Range requests incl. "
     "rejected ones; GET/HEAD) x ENUMERATED fault points: ASGI - client disconnect after the k-th send for every k up to the length of "
     "the fault-free run, with send() swallowing or raising OSError afterwards; WSGI - the server closes the iterable after k items for "
-    "every k; streaming producers raising at a generated step. evaluations counts gateway runs; non-trivial = a fault point strictly "
+    "every k (quick tier: a run longer than 48 events keeps its first 17, last 16 and every 8th fault point in between); streaming producers raising at a generated step. evaluations counts gateway runs; non-trivial = a fault point strictly "
     "inside the event sequence, or a fault-free run of a streaming/file/error-path recipe",
-    "filegrid": "enumerated product for FileResponse: (size, chunk) pairs x every Range shape (single, suffix, open, multi, unsatisfiable, malformed, empty) x GET/HEAD x "
-    "If-Range absent/stale x zero-copy extension offered or not, each with every close/disconnect prefix as above",
-    "statuses": "exhaustive: every three-digit status code 100..999 (every 7th plus class edges in the quick tier) through the empty, plain and redirect response on both interfaces",
+    "filegrid": "enumerated product for FileResponse: (size, chunk) pairs x every Range shape (single, suffix, open, multi, unsatisfiable, malformed, empty, positions of more than "
+    "4300 digits) x GET/HEAD x If-Range absent/stale x zero-copy extension offered / not offered / other extensions offered without it, each with every close/disconnect prefix as above; "
+    "hostile download names; files whose name ON DISK holds control characters, quotes or blanks (served as octet-stream without download name)",
+    "statuses": "exhaustive: every three-digit status code 100..999 (every 7th plus class edges in the quick tier) through the empty, plain (with and without content), html, json, redirect, stream and "
+    "event-stream response on both interfaces; the codes that never carry a body (1xx, 204, 205, 304) are always included",
+    "sse_idle": "enumerated: event streams whose producer stays silent for several ping intervals (before / between / after events) x 4 charsets, all close and disconnect prefixes",
+    "sse_fields": "enumerated: event streams with events that have no data field (event / id / retry only, no key at all, mixed with ordinary events) x charsets, all prefixes",
+    "iterables": "enumerated: StreamResponse and SendEventResponse over producers that are NOT generators - a list (WSGI), an iterator object without close()/aclose(), "
+    "an object whose __iter__/__aiter__ makes a fresh generator - x chunk lists x every producer raise point, each with all close/disconnect prefixes; plus ASGI streams whose "
+    "producer is suspended (sleeping) when the disconnect arrives",
+    "redirects": "enumerated: redirect targets that contain each C0 control character, DEL, C1 controls, blank, quote, backslash and angle brackets (in the path and in query/fragment), "
+    "handed over as str and as URL object, on both interfaces with all prefixes",
+    "cookie_attrs": "enumerated: cookie attributes with control characters - CR, LF, CRLF + 'Set-Cookie: evil=1', NUL, TAB, VT, ESC, DEL at the start / in the middle / at the end of "
+    "path, domain and samesite - through set_cookie and delete_cookie on each of the 8 response classes: either the call raises ValueError (nothing emitted; labelled) or the "
+    "response is emitted and every header pair passes the control-character clauses of both gateways, with all close/disconnect prefixes; benign attributes (path '/a b', "
+    "domain 'example.com', samesite strict/none/lax, secure, httponly) must be accepted and go through the whole oracle",
+    "filefaults": "enumerated fault injection for FileResponse: the file is removed / truncated to nothing / truncated to half / extended AFTER the response object was built and "
+    "before it is called x Range shape (none, single, multi) x GET/HEAD x zero-copy extension; the emitted events must be a legal prefix (an exception may escape)",
 }
 ASSUMPTIONS = [
     "constructor arguments that cannot be rendered at all (NaN in JSON, text the chosen charset cannot encode, header text above U+00FF) are caller errors and not generated",
     "a user who asks for a hop-by-hop header gets it; generated header names are non-hop-by-hop tokens",
     "under an injected fault only the emitted prefix is judged; an exception may escape",
+    "a file whose name on disk is not valid UTF-8 (surrogate escapes in the str path) is not generated: FileResponse refuses it at construction with UnicodeEncodeError; nothing is "
+    "emitted, so that is not a violation of the statement (observation only)",
+    "a cookie attribute (path, domain, samesite) with a control character may be refused at the set_cookie / delete_cookie call with ValueError; if it is accepted the emitted header is judged",
 ]
 
 _POISONED = {"wsgi-stream": False}
@@ -50,8 +71,144 @@ def with_watchdog(fn, timeout=20.0):
     return "ok", box["v"]
 
 
+# ------------------------------------------------------------------------------------------
+# producers that are not generators (recipe key "iterable"): what an application may hand to StreamResponse /
+# SendEventResponse according to their signatures (Iterable / AsyncIterable), e.g. a list of chunks, a cursor
+# object, a class with `async def __aiter__`
+
+
+def _item(it):
+    return dict(it) if isinstance(it, dict) else it  # the event-stream encoder pops keys from the event
+
+
+class _Steps:
+    """Shared step logic, same semantics as recipes._sync_producer: raise at step raise_at (or at the end)."""
+
+    def __init__(self, items, raise_at):
+        self.items = list(items)
+        self.raise_at = raise_at
+        self.i = 0
+        self.dead = False
+
+    def step(self):
+        """-> ('item', x) | ('stop', None); raises ProducerError at the scripted step (once)."""
+        if self.dead:
+            return "stop", None
+        i = self.i
+        if i < len(self.items):
+            if self.raise_at is not None and i == self.raise_at:
+                self.dead = True
+                raise ProducerError(f"producer failed at step {i}")
+            self.i += 1
+            return "item", _item(self.items[i])
+        self.dead = True
+        if self.raise_at is not None and self.raise_at >= len(self.items):
+            raise ProducerError("producer failed at the end")
+        return "stop", None
+
+
+class SyncIterator(_Steps):
+    """An iterator object: __iter__/__next__ only - no close(), send() or throw()."""
+
+    def __iter__(self):
+        return self
+
+    def __next__(self):
+        what, x = self.step()
+        if what == "stop":
+            raise StopIteration
+        return x
+
+
+class AsyncIterator(_Steps):
+    """An asynchronous iterator object: __aiter__/__anext__ only - no aclose(), asend() or athrow()."""
+
+    def __aiter__(self):
+        return self
+
+    async def __anext__(self):
+        await asyncio.sleep(0)
+        what, x = self.step()
+        if what == "stop":
+            raise StopAsyncIteration
+        return x
+
+
+class SyncReiterable:
+    """An object whose __iter__ is a generator function (the object itself has no close())."""
+
+    def __init__(self, items, raise_at):
+        self.items, self.raise_at = list(items), raise_at
+
+    def __iter__(self):
+        return recipes._sync_producer(self.items, self.raise_at, None)
+
+
+class AsyncReiterable:
+    """An object with `async def __aiter__`-style iteration (the object itself has no aclose())."""
+
+    def __init__(self, items, raise_at):
+        self.items, self.raise_at = list(items), raise_at
+
+    def __aiter__(self):
+        return recipes._async_producer(self.items, self.raise_at, None)
+
+
+def make_iterable(kind, side, items, raise_at):
+    if kind == "list" and side == "wsgi" and raise_at is None:
+        return [_item(it) for it in items]
+    if kind == "reiterable":
+        return (SyncReiterable if side == "wsgi" else AsyncReiterable)(items, raise_at)
+    if kind in ("list", "iterator"):  # there is no asynchronous list: the ASGI side of "list" is an iterator object
+        return (SyncIterator if side == "wsgi" else AsyncIterator)(items, raise_at)
+    raise core.HarnessError(f"iterable kind {kind!r}")
+
+
+class _Built:
+    def __init__(self, app):
+        self.app = app
+
+
+class CookieRejected(Exception):
+    """set_cookie / delete_cookie refused its arguments with ValueError (nothing of that cookie is ever emitted)."""
+
+
+_ATTR_CTL = re.compile(r"[\x00-\x1f\x7f]")  # the harness's own notion of a hostile attribute (C0 controls and DEL)
+_COOKIE_ATTRS = ("path", "domain", "samesite", "secure", "httponly")
+
+
+def cookie_ops_hostile(ops):
+    return any(isinstance(c.get(k), str) and _ATTR_CTL.search(c[k]) for c in ops for k in ("path", "domain", "samesite"))
+
+
+def _apply_cookie_ops(resp, ops):
+    """recipe key "cookie_ops": cookies with attributes, through set_cookie AND delete_cookie (the shared recipe
+    interpreter calls delete_cookie with the name only)."""
+    for c in ops:
+        kw = {k: c[k] for k in _COOKIE_ATTRS if k in c}
+        try:
+            if c.get("op") == "delete":
+                resp.delete_cookie(c["name"], **kw)
+            else:
+                resp.set_cookie(c["name"], c.get("value", ""), **kw)
+        except ValueError as exc:
+            raise CookieRejected(f"{c!r}: {exc}") from exc
+
+
 def build(recipe, side):
+    if recipe.get("iterable") or recipe.get("cookie_ops"):
+        resp = recipes.build_response(recipe, side)  # response objects are applications themselves
+        if recipe.get("iterable"):
+            items = recipe["chunks"] if recipe["kind"] == "stream" else recipe["events"]
+            resp.iterable = make_iterable(recipe["iterable"], side, items, recipe.get("raise_at"))
+        _apply_cookie_ops(resp, recipe.get("cookie_ops", ()))
+        return _Built(resp)
     return recipes.build_app({"app": "response", "response": recipe}, side)
+
+
+async def _settle():
+    for _ in range(5):
+        await asyncio.sleep(0)
 
 
 def request_for(case):
@@ -61,8 +218,12 @@ def request_for(case):
         headers.append(["Range", rq["range"]])
     if rq.get("if_range") is not None:
         headers.append(["If-Range", rq["if_range"]])
-    ext = {"http.response.zerocopysend": {}} if rq.get("zerocopy") else None
-    return gw.areq(method=rq.get("method", "GET"), path="/r", headers=headers, extensions=ext)
+    ext = {}
+    if rq.get("zerocopy"):
+        ext["http.response.zerocopysend"] = {}
+    for name in rq.get("extensions", ()):  # what servers offer besides (or instead of) zero-copy send
+        ext[name] = {}
+    return gw.areq(method=rq.get("method", "GET"), path="/r", headers=headers, extensions=ext or None)
 
 
 def wsgi_run(case, recipe, close_after=None):
@@ -86,6 +247,18 @@ def asgi_run(case, recipe, **kw):
     return gw.call_asgi(b.app, request_for(case), **kw)
 
 
+_THIN = {"on": False}  # set by run() in the quick tier; replays and the thorough tier enumerate every prefix
+
+
+def fault_points(n):
+    """Prefix lengths 0..n at which the server closes / the client disconnects.  Every one of them - except that the quick
+    tier thins out the middle of a long run (a 200-byte file sent in 1-byte chunks is 200 equal steps; with two ASGI runs
+    per point that one case costs 80 000 events): the first 17, the last 16 and every 8th point in between remain."""
+    if not _THIN["on"] or n <= 48:
+        return list(range(0, n + 1))
+    return sorted(set(range(0, 17)) | set(range(17, n - 15, 8)) | set(range(n - 15, n + 1)))
+
+
 def oracle(case) -> Result:
     r = Result()
     recipe = case["response"]
@@ -99,14 +272,33 @@ def oracle(case) -> Result:
     if recipe.get("hostile_ctor"):
         # an argument that cannot be sent (CR/LF/NUL in a download name): refusing it at construction is
         # fine; if it is accepted, everything below applies to what gets emitted
+        probe = {k: v for k, v in base.items() if k != "cookie_ops"}  # the cookie calls are judged on their own below
         try:
-            build(base, "wsgi")
-            build(base, "asgi")
+            build(probe, "wsgi")
+            build(probe, "asgi")
         except ValueError:
             r.label("rejected-at-construction", f"kind={kind}")
             r.nontrivial = True
             return r
-    run = wsgi_run(case, base)
+    rejected = set()
+    if recipe.get("cookie_ops"):
+        # cookie attributes (path, domain, samesite) are copied into the header line as they are.  Two outcomes are
+        # legal for a hostile one: the call refuses it with ValueError (nothing is emitted), or the response goes out and
+        # then the clauses below apply to every header pair.  A benign attribute must be accepted.
+        hostile = cookie_ops_hostile(recipe["cookie_ops"])
+        for side in ("wsgi", "asgi"):
+            try:
+                build(base, side)
+            except CookieRejected as exc:
+                rejected.add(side)
+                if not hostile:
+                    r.fail(f"C05:{side}:benign-cookie-attribute-rejected", f"{ctx}: {exc}")
+        r.label("cookie-attributes=" + ("hostile" if hostile else "benign"))
+        r.label("cookie-call=" + ("raised-ValueError" if len(rejected) == 2 else "accepted" if not rejected else "raised-on-" + min(rejected)))
+        if len(rejected) == 2:
+            r.nontrivial = hostile
+            return r
+    run = None if "wsgi" in rejected else wsgi_run(case, base)
     runs += 1
     if run == "hang":
         r.fail("C05:wsgi:hang", f"{ctx}: fault-free WSGI run did not return within 20 s")
@@ -122,7 +314,7 @@ def oracle(case) -> Result:
             r.fail("C05:wsgi:start-count", f"{ctx}: start_response called {run.start_calls} times")
         r.label(f"wsgi-status={run.status_code}")
         # server closes the iterable after k items
-        for k in range(0, n_items + 1):
+        for k in fault_points(n_items):
             fr = wsgi_run(case, base, close_after=k)
             runs += 1
             if fr == "hang":
@@ -136,7 +328,7 @@ def oracle(case) -> Result:
                 r.fail(f"C05:wsgi:prefix:{code}", f"{ctx}: closed after {k} items: {text}")
             if fr.exc is not None and not isinstance(fr.exc, ProducerError):
                 r.fail(f"C05:wsgi:close-raised:{type(fr.exc).__name__}", f"{ctx}: closed after {k} items: {fr.exc!r}")
-    if "raise_at" in recipe:
+    if "raise_at" in recipe and "wsgi" not in rejected:
         fr = wsgi_run(case, recipe)
         runs += 1
         inner_fault = True
@@ -149,45 +341,54 @@ def oracle(case) -> Result:
             if fr.exc is not None and not isinstance(fr.exc, ProducerError):
                 r.fail(f"C05:wsgi:producer-fault-raised:{type(fr.exc).__name__}", f"{ctx}: {fr.exc!r}")
     # ---------------- ASGI ----------------
-    arun = asgi_run(case, base)
-    runs += 1
-    if arun.exc is not None:
-        r.fail(f"C05:asgi:fault-free-raised:{type(arun.exc).__name__}", f"{ctx}: {arun.exc!r}; events so far {[e.get('type') for e in arun.events]}")
-    for code, text in arun.errors:
-        r.fail(f"C05:asgi:{code}", f"{ctx}: {text}")
-    if arun.exc is None and not arun.complete:
-        r.fail("C05:asgi:incomplete", f"{ctx}: events {[(e.get('type'), e.get('more_body')) for e in arun.events]}")
-    if arun.exc is None and arun.complete:
-        bodies = [e for e in arun.events if e.get("type") != "http.response.start"]
-        if not bodies:
-            r.fail("C05:asgi:no-body-event", ctx)
-    r.label(f"asgi-status={arun.status_code}", f"kind={kind}")
-    n_sends = arun.sends
-    for k in range(0, n_sends + 1):
-        for raising in (False, True):
-            fr = asgi_run(case, base, disconnect_after_sends=k, send_raises_after_disconnect=raising)
-            runs += 1
-            if 0 < k < n_sends:
-                inner_fault = True
-            for code, text in fr.errors:
-                r.fail(f"C05:asgi:prefix:{code}", f"{ctx}: disconnect after {k} sends (send {'raises' if raising else 'swallows'}): {text}")
-            if fr.exc is not None and not (raising and isinstance(fr.exc, OSError)):
-                r.fail(
-                    f"C05:asgi:disconnect-raised:{type(fr.exc).__name__}",
-                    f"{ctx}: disconnect after {k} sends (send {'raises' if raising else 'swallows'}): {fr.exc!r}",
-                )
-    if "raise_at" in recipe:
-        fr = asgi_run(case, recipe)
+    if "asgi" not in rejected:
+        arun = asgi_run(case, base)
         runs += 1
-        for code, text in fr.errors:
-            r.fail(f"C05:asgi:prefix:{code}", f"{ctx}: producer raised at step {recipe['raise_at']}: {text}")
-        if fr.exc is not None and not isinstance(fr.exc, ProducerError):
-            r.fail(f"C05:asgi:producer-fault-raised:{type(fr.exc).__name__}", f"{ctx}: {fr.exc!r}")
+        if arun.exc is not None:
+            r.fail(f"C05:asgi:fault-free-raised:{type(arun.exc).__name__}", f"{ctx}: {arun.exc!r}; events so far {[e.get('type') for e in arun.events]}")
+        for code, text in arun.errors:
+            r.fail(f"C05:asgi:{code}", f"{ctx}: {text}")
+        if arun.exc is None and not arun.complete:
+            r.fail("C05:asgi:incomplete", f"{ctx}: events {[(e.get('type'), e.get('more_body')) for e in arun.events]}")
+        if arun.exc is None and arun.complete:
+            bodies = [e for e in arun.events if e.get("type") != "http.response.start"]
+            if not bodies:
+                r.fail("C05:asgi:no-body-event", ctx)
+        r.label(f"asgi-status={arun.status_code}", f"kind={kind}")
+        n_sends = arun.sends
+        for k in fault_points(n_sends):
+            for raising in (False, True):
+                fr = asgi_run(case, base, disconnect_after_sends=k, send_raises_after_disconnect=raising)
+                runs += 1
+                if 0 < k < n_sends:
+                    inner_fault = True
+                for code, text in fr.errors:
+                    r.fail(f"C05:asgi:prefix:{code}", f"{ctx}: disconnect after {k} sends (send {'raises' if raising else 'swallows'}): {text}")
+                if fr.exc is not None and not (raising and isinstance(fr.exc, OSError)):
+                    r.fail(
+                        f"C05:asgi:disconnect-raised:{type(fr.exc).__name__}",
+                        f"{ctx}: disconnect after {k} sends (send {'raises' if raising else 'swallows'}): {fr.exc!r}",
+                    )
+        if "raise_at" in recipe:
+            fr = asgi_run(case, recipe)
+            runs += 1
+            for code, text in fr.errors:
+                r.fail(f"C05:asgi:prefix:{code}", f"{ctx}: producer raised at step {recipe['raise_at']}: {text}")
+            if fr.exc is not None and not isinstance(fr.exc, ProducerError):
+                r.fail(f"C05:asgi:producer-fault-raised:{type(fr.exc).__name__}", f"{ctx}: {fr.exc!r}")
+    if recipe.get("iterable"):
+        # a generator made by the producer object's own __aiter__ is not baize's to close; when it is dropped the event
+        # loop's asynchronous-generator finaliser closes it in a task of its own: let that task run
+        gw.run_sync(_settle())
     left = gw.leftover_tasks()
     if left:
         r.fail("C05:asgi:task-left", f"{ctx}: {left[:2]!r}")
     r.weight = runs
-    r.nontrivial = inner_fault or kind in ("stream", "sse", "file")
+    r.nontrivial = inner_fault or kind in ("stream", "sse", "file") or bool(recipe.get("cookie_ops"))
+    if recipe.get("iterable"):
+        r.label(f"producer={recipe['iterable']}")
+    if case.get("request", {}).get("extensions"):
+        r.label("other-extensions-offered")
     if inner_fault:
         r.label("fault-inside-sequence")
     if "raise_at" in recipe:
@@ -200,21 +401,36 @@ def oracle(case) -> Result:
 def oracle_status(case) -> Result:
     r = Result()
     status = case["status"]
-    for kind, recipe in (
+    kinds = (
         ("empty", {"kind": "empty", "status": status}),
         ("plain", {"kind": "plain", "content": "x", "status": status}),
+        ("plain-empty", {"kind": "plain", "content": "", "status": status}),
         ("redirect", {"kind": "redirect", "url": "/n", "status": status}),
-    ):
-        w = gw.call_wsgi(build(recipe, "wsgi").app, gw.areq())
+        ("html", {"kind": "html", "content": "<p>x</p>", "status": status}),
+        ("json", {"kind": "json", "content": {"a": 1}, "status": status}),
+        ("stream", {"kind": "stream", "chunks": [b"x"], "status": status}),
+        ("sse", {"kind": "sse", "events": [{"data": "x"}], "status": status}),
+    )
+    for kind, recipe in kinds:
+        w = wsgi_run({}, recipe)
+        if w == "hang":
+            r.fail("C05:wsgi:hang", f"status {status} {kind}: no return within 20 s")
+            w = None
         a = gw.call_asgi(build(recipe, "asgi").app, gw.areq())
         for side, run in (("wsgi", w), ("asgi", a)):
+            if run is None:
+                continue
             if run.exc is not None:
                 r.fail(f"C05:{side}:status-raised:{type(run.exc).__name__}", f"status {status} {kind}: {run.exc!r}")
             for code, text in run.errors:
                 r.fail(f"C05:{side}:{code}", f"status {status} {kind}: {text}")
             if run.status_code != status:
                 r.fail(f"C05:{side}:status-value", f"status {status} {kind}: emitted {run.status_code}")
-    r.weight = 6
+            if run.exc is None and side == "asgi" and not run.complete:
+                r.fail("C05:asgi:incomplete", f"status {status} {kind}: events {[(e.get('type'), e.get('more_body')) for e in run.events]}")
+            if run.exc is None and side == "wsgi" and run.start_calls != 1:
+                r.fail("C05:wsgi:start-count", f"status {status} {kind}: start_response called {run.start_calls} times")
+    r.weight = 2 * len(kinds)
     from http import HTTPStatus
 
     r.nontrivial = status not in {int(s) for s in HTTPStatus}
@@ -222,7 +438,194 @@ def oracle_status(case) -> Result:
     return r
 
 
-SUBS = {"responses": oracle, "statuses": oracle_status, "filegrid": oracle, "sse_idle": oracle}
+def _apply_file_fault(path, fault, size):
+    if fault == "vanish":
+        os.unlink(path)
+    elif fault == "truncate0":
+        os.truncate(path, 0)
+    elif fault == "truncate-half":
+        os.truncate(path, size // 2)
+    elif fault == "grow":
+        with open(path, "ab") as fh:
+            fh.write(b"+" * (size + 3))
+    else:
+        raise core.HarnessError(f"file fault {fault!r}")
+
+
+def _faulted_file_run(case, side, **kw):
+    """Build the FileResponse (it stats the file), then damage the file, then call the response; the file is restored."""
+    recipe = case["response"]
+    resp = recipes.build_response(recipe, side)
+    path = resp.filepath
+    try:
+        _apply_file_fault(path, case["fault"], recipe["size"])
+        if side == "wsgi":
+            return gw.call_wsgi(resp, request_for(case), **kw)
+        return gw.call_asgi(resp, request_for(case), **kw)
+    finally:
+        with open(path, "wb") as fh:
+            fh.write(recipes.pattern(recipe["size"]))
+
+
+def oracle_filefault(case) -> Result:
+    """The body producer of a file response is the file: it fails (or runs dry) after the response object was built.
+    Whatever is emitted must be a legal prefix; without an exception it must be a complete legal sequence."""
+    r = Result()
+    ctx = f"file {case['fault']} after construction, recipe {case['response']!r} request {case['request']!r}"
+    runs = 0
+    w = _faulted_file_run(case, "wsgi")
+    runs += 1
+    for code, text in w.errors:
+        r.fail(f"C05:wsgi:filefault:{code}", f"{ctx}: {text}")
+    if w.exc is None and w.start_calls != 1:
+        r.fail("C05:wsgi:filefault:start-count", f"{ctx}: start_response called {w.start_calls} times")
+    r.label(f"wsgi-outcome={'raised:' + type(w.exc).__name__ if w.exc is not None else w.status_code}")
+    for k in range(0, w.items + 1):
+        fr = _faulted_file_run(case, "wsgi", close_after=k)
+        runs += 1
+        for code, text in fr.errors:
+            r.fail(f"C05:wsgi:filefault:prefix:{code}", f"{ctx}: closed after {k} items: {text}")
+    a = _faulted_file_run(case, "asgi")
+    runs += 1
+    for code, text in a.errors:
+        r.fail(f"C05:asgi:filefault:{code}", f"{ctx}: {text}")
+    if a.exc is None and not a.complete:
+        r.fail("C05:asgi:filefault:incomplete", f"{ctx}: events {[(e.get('type'), e.get('more_body')) for e in a.events]}")
+    r.label(f"asgi-outcome={'raised:' + type(a.exc).__name__ if a.exc is not None else a.status_code}")
+    for k in range(0, a.sends + 1):
+        for raising in (False, True):
+            fr = _faulted_file_run(case, "asgi", disconnect_after_sends=k, send_raises_after_disconnect=raising)
+            runs += 1
+            for code, text in fr.errors:
+                r.fail(f"C05:asgi:filefault:prefix:{code}", f"{ctx}: disconnect after {k} sends (send {'raises' if raising else 'swallows'}): {text}")
+    left = gw.leftover_tasks()
+    if left:
+        r.fail("C05:asgi:task-left", f"{ctx}: {left[:2]!r}")
+    r.weight = runs
+    r.nontrivial = True
+    r.label(f"file-fault={case['fault']}")
+    return r
+
+
+SUBS = {
+    "responses": oracle,
+    "statuses": oracle_status,
+    "filegrid": oracle,
+    "sse_idle": oracle,
+    "sse_fields": oracle,
+    "iterables": oracle,
+    "redirects": oracle,
+    "filefaults": oracle_filefault,
+    "cookie_attrs": oracle,
+}
+
+
+_KIND_RECIPES = (
+    {"kind": "empty"},
+    {"kind": "plain", "content": "x"},
+    {"kind": "html", "content": "<p>x</p>"},
+    {"kind": "json", "content": {"a": 1}},
+    {"kind": "redirect", "url": "/n"},
+    {"kind": "stream", "chunks": [b"a"]},
+    {"kind": "sse", "events": [{"data": "x"}]},
+    {"kind": "file", "name": "f.txt", "size": 5, "chunk": 3},
+)
+HOSTILE_ATTR_TEXT = ["\r", "\n", "\r\nSet-Cookie: evil=1", "\x00", "\t", "\x0b", "\x1b", "\x7f"]
+_ATTR_BASE = {"path": "/app", "domain": "example.com", "samesite": "lax"}
+
+
+def hostile_attr(attr, text, where):
+    base = _ATTR_BASE[attr]
+    return {"start": text + base, "middle": base[:2] + text + base[2:], "end": base + text}[where]
+
+
+def cookie_attr_cases():
+    for recipe in _KIND_RECIPES:
+        for op in ("set", "delete"):
+            for attr in ("path", "domain", "samesite"):
+                for text in HOSTILE_ATTR_TEXT:
+                    for where in ("start", "middle", "end"):
+                        c = {"op": op, "name": "sid", "value": "v", attr: hostile_attr(attr, text, where)}
+                        yield {"response": dict(recipe, cookie_ops=[c]), "request": {"method": "GET"}}
+            # benign attributes: must be accepted, and the response is judged like any other
+            for kw in (
+                {"path": "/a b"},
+                {"domain": "example.com", "samesite": "strict"},
+                {"path": "/", "domain": "example.com", "samesite": "none", "httponly": True},
+                {"samesite": "lax", "secure": True, "path": "/x;y=z,w"},
+            ):
+                yield {"response": dict(recipe, cookie_ops=[dict({"op": op, "name": "sid", "value": "v"}, **kw)]), "request": {"method": "GET"}}
+        # a hostile cookie next to a benign one, and the same attribute text twice
+        two = [{"op": "set", "name": "a", "value": "1", "path": "/ok"}, {"op": "delete", "name": "b", "domain": "ex\nample.com"}]
+        yield {"response": dict(recipe, cookie_ops=two), "request": {"method": "GET"}}
+
+
+def sse_field_cases():
+    """Events without a data field are legitimate (`ServerSentEvent` is a total=False TypedDict): an event name, an id
+    or a retry hint alone, or nothing at all."""
+    lists = (
+        [{"event": "e"}],
+        [{"id": "1"}],
+        [{"retry": 5}],
+        [{}],
+        [{"data": "x"}, {}, {"id": "2"}],
+        [{"event": "e", "id": "1", "retry": 0}, {"data": "é"}],
+    )
+    for charset in (None, "latin-1"):
+        for events in lists:
+            recipe = {"kind": "sse", "events": [dict(e) for e in events]}
+            if charset:
+                recipe["charset"] = charset
+            yield {"response": recipe, "request": {"method": "GET"}}
+
+
+def iterable_cases(quick):
+    chunk_lists = ([], [b"a"], [b"a", b"", b"bc"])
+    event_lists = ([], [{"data": "x"}], [{"data": "a\nb", "id": "1"}, {"event": "e"}, {"data": "é"}])
+    for it in ("list", "iterator", "reiterable"):
+        for kind, key, lists in (("stream", "chunks", chunk_lists), ("sse", "events", event_lists)):
+            for items in lists:
+                for raise_at in [None] + list(range(len(items) + 1)):
+                    if quick and raise_at is not None and 0 < raise_at < len(items) - 1:
+                        continue
+                    recipe = {"kind": kind, key: [_item(x) for x in items], "iterable": it}
+                    if raise_at is not None:
+                        recipe["raise_at"] = raise_at
+                    yield {"response": recipe, "request": {"method": "GET"}}
+    # ASGI producers that are suspended when the client goes away (the WSGI side of these recipes does not sleep)
+    for chunks, delays in (([b"a", b"", b"bc"], [0.004, 0, 0.004]), ([b"a"], [0.004]), ([b"a", b"b"], [0, 0.004])):
+        for raise_at in (None, len(chunks)):
+            recipe = {"kind": "stream", "chunks": list(chunks), "delays": list(delays)}
+            if raise_at is not None:
+                recipe["raise_at"] = raise_at
+            yield {"response": recipe, "request": {"method": "GET"}}
+
+
+_REDIRECT_CHARS = [chr(c) for c in range(0x00, 0x21)] + ["\x7f", "\x80", "\x85", "\x9f", "\xa0", '"', "\\", "<", ">", "^", "`", "{", "|", "}"]
+
+
+def redirect_cases(quick):
+    for ch in _REDIRECT_CHARS:
+        for shape in ("/a{c}b", "https://example.org/p?q={c}1#f{c}") if not quick or ord(ch) < 0x21 or ch == "\x7f" else ("/a{c}b",):
+            for as_object in (False, True):
+                recipe = {"kind": "redirect", "url": shape.replace("{c}", ch)}
+                if as_object:
+                    recipe["url_object"] = True
+                yield {"response": recipe, "request": {"method": "GET"}}
+
+
+def filefault_cases(quick):
+    for fault in ("vanish", "truncate0", "truncate-half", "grow"):
+        for size, chunk in ((5, 3), (8, 4)) if quick else ((5, 3), (8, 4), (1, 1), (64, 7)):
+            for rng in (None, "bytes=1-3", "bytes=0-0,2-3"):
+                for method in ("GET", "HEAD"):
+                    for zc in (False, True):
+                        if zc and fault != "vanish":
+                            # with zero-copy send the SERVER reads the file: an announced (offset, count) beyond the end of a
+                            # file that shrank meanwhile is the file's fault, not a protocol error of the application
+                            continue
+                        rq = {"method": method, "range": rng, "zerocopy": zc}
+                        yield {"response": {"kind": "file", "name": "volatile.bin", "size": size, "chunk": chunk}, "request": rq, "fault": fault}
 
 
 def sse_idle_cases():
@@ -249,7 +652,41 @@ def response_case(draw):
         if draw(st.integers(0, 7)) == 0:
             recipe["download_name"] = draw(st.sampled_from(["a\r\nSet-Cookie: x=1", "a\nb.txt", "nul\x00.bin", "cr\r.txt", "t\tab.txt", "del\x7f.txt"]))
             recipe["hostile_ctor"] = True
+        elif draw(st.integers(0, 7)) == 0:
+            recipe["name"] = draw(st.sampled_from(DISK_NAMES))
+            recipe.pop("download_name", None)
+        if not rq.get("zerocopy") and draw(st.integers(0, 3)) == 0:
+            rq["extensions"] = draw(st.sampled_from([["http.response.push"], ["http.response.debug", "tls"], ["http.response.trailers"]]))
+    elif recipe["kind"] in ("stream", "sse"):
+        if draw(st.integers(0, 3)) == 0:
+            recipe["iterable"] = draw(st.sampled_from(["list", "iterator", "reiterable"]))
+        if recipe["kind"] == "sse" and recipe["events"] and draw(st.integers(0, 3)) == 0:
+            i = draw(st.integers(0, len(recipe["events"]) - 1))
+            recipe["events"][i] = draw(st.sampled_from([{}, {"event": "e"}, {"id": "7"}, {"retry": 100}]))
+    elif recipe["kind"] == "redirect" and draw(st.integers(0, 5)) == 0:
+        ch = draw(st.sampled_from(_REDIRECT_CHARS))
+        recipe["url"] = draw(st.sampled_from(["/a{c}b", "{c}", "//h/{c}?{c}#{c}", "/é{c}"])).replace("{c}", ch)
+    if draw(st.integers(0, 7)) == 0:
+        ops = []
+        for _ in range(draw(st.integers(1, 2))):
+            c = {"op": draw(st.sampled_from(["set", "set", "delete"])), "name": draw(st.sampled_from(["sid", "k.1", "theme"])), "value": "v"}
+            for attr in draw(st.lists(st.sampled_from(["path", "domain", "samesite"]), min_size=1, max_size=3, unique=True)):
+                if draw(st.booleans()):
+                    c[attr] = hostile_attr(attr, draw(st.sampled_from(HOSTILE_ATTR_TEXT)), draw(st.sampled_from(["start", "middle", "end"])))
+                else:
+                    c[attr] = draw(st.sampled_from({"path": ["/", "/a b", "/app"], "domain": ["example.com", "a.example.org"], "samesite": ["strict", "lax", "none"]}[attr]))
+            ops.append(c)
+        recipe["cookie_ops"] = ops
     return {"response": recipe, "request": rq}
+
+
+# names a file can have on disk (POSIX allows everything but "/" and NUL); they end in .bin, so the file is served as
+# application/octet-stream and - without a download name - its own name goes into Content-Disposition
+# Not generated: a name that is not valid UTF-8 (os.fsdecode gives lone surrogates, e.g. "\udcff.bin").  FileResponse(path) raises
+# UnicodeEncodeError at construction (quote() of the surrogate) on both interfaces: nothing is emitted, so not a violation of the
+# statement; observation only.
+DISK_NAMES = ["esc\x1b.bin", "nl\nx.bin", "cr\rx.bin", "del\x7f.bin", "tab\t.bin", "vt\x0b.bin", 'quo"te.bin', "semi;x.bin", "sp ace.bin", "é.bin", "back\\slash.bin", "nel\x85.bin", "ls\u2028.bin"]
+HUGE_RANGES = ["bytes=0-" + "9" * 4400, "bytes=" + "1" * 4400 + "-", "bytes=-" + "9" * 4400, "bytes=0-0," + "7" * 5000 + "-"]
 
 
 def file_grid(quick):
@@ -270,16 +707,41 @@ def file_grid(quick):
     for dn in ("a\r\nSet-Cookie: x=1", "a\nb.txt", "nul\x00.bin", "cr\r.txt", "t\tab.txt", "del\x7f.txt", "ok.txt", "sp ace.txt", 'quo"te.txt', "semi;colon.txt", "é.txt"):
         for rng in (None, "bytes=0-1", "bytes=9-"):
             yield {"response": {"kind": "file", "name": "f.txt", "size": 5, "chunk": 3, "download_name": dn, "hostile_ctor": True}, "request": {"method": "GET", "range": rng}}
+    for name in DISK_NAMES:
+        for rng in (None, "bytes=0-1", "bytes=9-"):
+            yield {"response": {"kind": "file", "name": name, "size": 5, "chunk": 3}, "request": {"method": "GET", "range": rng}}
+    # servers that offer extensions, but not zero-copy send (HTTP/2 push, trailers, debug, TLS information)
+    for exts in (["http.response.push"], ["http.response.debug", "tls"], ["http.response.trailers", "http.response.pathsend"]):
+        for size, chunk in ((0, 3), (5, 3), (12, 4096)):
+            for rng in (None, "bytes=1-3", "bytes=0-0,2-3", "bytes=9999-"):
+                for method in ("GET", "HEAD"):
+                    yield {"response": {"kind": "file", "name": "f.txt", "size": size, "chunk": chunk}, "request": {"method": method, "range": rng, "extensions": exts}}
+    # positions longer than int() converts (CPython >= 3.11: 4300 digits)
+    for rng in HUGE_RANGES:
+        for method in ("GET", "HEAD"):
+            for zc in (False, True):
+                yield {"response": {"kind": "file", "name": "f.txt", "size": 5, "chunk": 3}, "request": {"method": method, "range": rng, "zerocopy": zc}}
 
 
 def run(rec, only=None):
     quick = rec.tier == "quick"
-    codes = sorted(set(range(100, 1000, 7 if quick else 1)) | {100, 199, 299, 418, 499, 599, 600, 601, 699, 700, 777, 899, 900, 999})
+    _THIN["on"] = quick
+    codes = sorted(set(range(100, 1000, 7 if quick else 1)) | {100, 101, 103, 199, 204, 205, 206, 299, 304, 418, 499, 599, 600, 601, 699, 700, 777, 899, 900, 999})
     core.drive_cases(rec, "statuses", ({"status": s} for s in codes), oracle_status)
     rec.exhaustive["statuses"] = not quick
     core.drive_cases(rec, "filegrid", file_grid(quick), oracle)
     rec.exhaustive["filegrid"] = True
     core.drive_cases(rec, "sse_idle", sse_idle_cases(), oracle)
     rec.exhaustive["sse_idle"] = True
+    core.drive_cases(rec, "sse_fields", sse_field_cases(), oracle)
+    rec.exhaustive["sse_fields"] = True
+    core.drive_cases(rec, "iterables", iterable_cases(quick), oracle)
+    rec.exhaustive["iterables"] = not quick
+    core.drive_cases(rec, "redirects", redirect_cases(quick), oracle)
+    rec.exhaustive["redirects"] = not quick
+    core.drive_cases(rec, "filefaults", filefault_cases(quick), oracle_filefault)
+    rec.exhaustive["filefaults"] = True
+    core.drive_cases(rec, "cookie_attrs", cookie_attr_cases(), oracle)
+    rec.exhaustive["cookie_attrs"] = True
     core.drive_hypothesis(rec, "responses", response_case(), oracle, 1500 if quick else 30000)
     rec.exhaustive["responses"] = False
